@@ -6,4 +6,6 @@ open Verif.Props.C01E
 #print axioms minifyString_quoted
 #print axioms template_only_if_allowed
 #print axioms not_longer_counterexample
-#print axioms no_script_end_counterexample
+#print axioms no_script_end
+#print axioms no_html_end
+#print axioms no_html_end_template
